@@ -512,10 +512,17 @@ class Light(Device):
                 if all(
                     c.brightness.initialized for c in self._iter_individual_colors()
                 ):
-                    self.red.brightness.set(color[0])
-                    self.green.brightness.set(color[1])
-                    self.blue.brightness.set(color[2])
-                    self.white.brightness.set(white)
+                    # convert all values before sending - raises ConversionError if one is invalid
+                    payloads = [
+                        self.red.brightness.to_knx(color[0]),
+                        self.green.brightness.to_knx(color[1]),
+                        self.blue.brightness.to_knx(color[2]),
+                        self.white.brightness.to_knx(white),
+                    ]
+                    for individual_color, payload in zip(
+                        self._iter_individual_colors(), payloads, strict=True
+                    ):
+                        individual_color.brightness.send_raw(payload)
                     return
             logger.warning("RGBW not supported for device %s", self.get_name())
         else:
@@ -526,9 +533,16 @@ class Light(Device):
                 if all(
                     c.brightness.initialized for c in (self.red, self.green, self.blue)
                 ):
-                    self.red.brightness.set(color[0])
-                    self.green.brightness.set(color[1])
-                    self.blue.brightness.set(color[2])
+                    # convert all values before sending - raises ConversionError if one is invalid
+                    payloads = [
+                        self.red.brightness.to_knx(color[0]),
+                        self.green.brightness.to_knx(color[1]),
+                        self.blue.brightness.to_knx(color[2]),
+                    ]
+                    for individual_color, payload in zip(
+                        (self.red, self.green, self.blue), payloads, strict=True
+                    ):
+                        individual_color.brightness.send_raw(payload)
                     return
             logger.warning("Colors not supported for device %s", self.get_name())
 
